@@ -32,7 +32,7 @@ def run_checks(dst, props, meta):
         m = re.match(r"(C\d\d) exit=(\d+) (.*)", line)
         if m:
             meta["checks"][m.group(1)] = {"exit": int(m.group(2)), "caught": m.group(2) == "1" and "VIOLATION" in m.group(3),
-                                          "no_failing_input_found": "no-failing-input-found" in m.group(3),
+                                          "no_failing_input_found": all("no-failing-input-found" in seg for seg in m.group(3).split("|") if "VIOLATION" in seg) and "VIOLATION" in m.group(3),
                                           "line": m.group(3)[-400:]}
             print(m.group(1), "caught" if meta["checks"][m.group(1)]["caught"] else "MISSED", m.group(3)[-160:])
 
